@@ -307,18 +307,22 @@ theorem C11_withdraw_hf_dust_term_needed : c11DustCheck = true := by decide +ker
 
 /-! ## change_collateral -/
 
-/-- **change_collateral: accepted iff** the token is supplied and — when a collateral flag is switched off — the
-    health factor afterwards is not below 1; the accepted call changes nothing but the flag, and an account with debt
-    has HF ≥ 1 after switching a collateral off. -/
+/-- **change_collateral: accepted iff** the token is supplied and the flag is already as asked, or it is switched *on* and
+    the risk table admits the token as collateral (`usageAsCollateralEnabled`, the rule of `supply`; repair 500c37d), or it
+    is switched *off* and the health factor afterwards is not below 1.  The accepted call changes nothing but the flag, an
+    account with debt has HF ≥ 1 after switching a collateral off, and a flag that was switched on belongs to an admitted
+    token. -/
 theorem C11_change_collateral (p : Portfolio) (tok : String) (flag : Bool) :
     ((∃ p', changeCollateral NumCtx.exact p tok flag = .ok p') ↔
       ∃ s, findSupply? p.supplies tok = some s ∧
-        (s.coll = flag ∨ flag = true
-          ∨ (healthFactor NumCtx.exact { p with supplies := setSupplyColl p.supplies tok flag }).ltB 1 = false))
+        (s.coll = flag ∨ (flag = true ∧ s.row.canColl = true)
+          ∨ (flag = false ∧
+              (healthFactor NumCtx.exact { p with supplies := setSupplyColl p.supplies tok flag }).ltB 1 = false)))
     ∧ (∀ p', changeCollateral NumCtx.exact p tok flag = .ok p' →
         (p' = p ∨ p' = { p with supplies := setSupplyColl p.supplies tok flag })
         ∧ (∀ s, findSupply? p.supplies tok = some s → s.coll = true → flag = false →
-            (healthFactor NumCtx.exact p').ltB 1 = false)) := by
+            (healthFactor NumCtx.exact p').ltB 1 = false)
+        ∧ (∀ s, findSupply? p.supplies tok = some s → s.coll = false → flag = true → s.row.canColl = true)) := by
   have hT : Gen.arHfLiqThreshold = 1 := rfl
   unfold changeCollateral
   rw [hT]
@@ -326,43 +330,54 @@ theorem C11_change_collateral (p : Portfolio) (tok : String) (flag : Bool) :
   | none => simp
   | some s =>
     simp only [Option.some.injEq, exists_eq_left']
-    constructor
-    · constructor
-      · rintro ⟨p', h⟩
-        split at h
-        · rename_i hc; exact Or.inl hc
-        · split at h
-          · cases h
-          · rename_i hc h2
-            rw [not_and] at h2
-            cases flag with
-            | true => exact Or.inr (Or.inl rfl)
-            | false => exact Or.inr (Or.inr (by simpa using h2 rfl))
-      · rintro (hc | hc | hc)
-        · rw [if_pos hc]; exact ⟨_, rfl⟩
-        · by_cases h1 : s.coll = flag
-          · rw [if_pos h1]; exact ⟨_, rfl⟩
-          · rw [if_neg h1, if_neg (by rw [hc]; simp)]; exact ⟨_, rfl⟩
-        · by_cases h1 : s.coll = flag
-          · rw [if_pos h1]; exact ⟨_, rfl⟩
-          · rw [if_neg h1, if_neg (by rw [hc]; simp)]; exact ⟨_, rfl⟩
-    · intro p' h
-      split at h
-      · rename_i hc
-        simp only [Except.ok.injEq] at h
-        subst h
-        refine ⟨Or.inl rfl, ?_⟩
-        intro s' hs' hcoll hflag
-        cases hs'; rw [hcoll, hflag] at hc; cases hc
-      · split at h
-        · cases h
-        · rename_i hc h2
-          simp only [Except.ok.injEq] at h
-          subst h
-          refine ⟨Or.inr rfl, ?_⟩
-          intro s' _ _ hflag
-          rw [not_and] at h2
-          simpa using h2 hflag
+    by_cases hc : s.coll = flag
+    · simp only [if_pos hc]
+      refine ⟨⟨fun _ => Or.inl hc, fun _ => ⟨_, rfl⟩⟩, ?_⟩
+      intro p' h
+      simp only [Except.ok.injEq] at h
+      subst h
+      refine ⟨Or.inl rfl, ?_, ?_⟩
+      · intro s' hs' hcoll hflag; cases hs'; rw [hcoll, hflag] at hc; cases hc
+      · intro s' hs' hcoll hflag; cases hs'; rw [hcoll, hflag] at hc; cases hc
+    · rw [if_neg hc]
+      by_cases h1 : (flag = true ∧ s.row.canColl = false)
+      · rw [if_pos h1]
+        refine ⟨⟨(fun ⟨_, h⟩ => by cases h), ?_⟩, fun p' h => by cases h⟩
+        rintro (h | ⟨_, h⟩ | ⟨h, _⟩)
+        · exact absurd h hc
+        · rw [h1.2] at h; cases h
+        · rw [h1.1] at h; cases h
+      · rw [if_neg h1]
+        by_cases h2 : (flag = false ∧
+            (healthFactor NumCtx.exact { p with supplies := setSupplyColl p.supplies tok flag }).ltB 1 = true)
+        · rw [if_pos h2]
+          refine ⟨⟨(fun ⟨_, h⟩ => by cases h), ?_⟩, fun p' h => by cases h⟩
+          rintro (h | ⟨h, _⟩ | ⟨_, h⟩)
+          · exact absurd h hc
+          · rw [h2.1] at h; cases h
+          · rw [h2.2] at h; cases h
+        · rw [if_neg h2]
+          have hcan : flag = true → s.row.canColl = true := by
+            intro hfl
+            cases hcc : s.row.canColl with
+            | true => rfl
+            | false => exact absurd ⟨hfl, hcc⟩ h1
+          have hhf : flag = false →
+              (healthFactor NumCtx.exact { p with supplies := setSupplyColl p.supplies tok flag }).ltB 1 = false := by
+            intro hfl
+            cases hl : (healthFactor NumCtx.exact { p with supplies := setSupplyColl p.supplies tok flag }).ltB 1 with
+            | false => rfl
+            | true => exact absurd ⟨hfl, hl⟩ h2
+          refine ⟨⟨fun _ => ?_, fun _ => ⟨_, rfl⟩⟩, ?_⟩
+          · rcases Bool.eq_false_or_eq_true flag with hfl | hfl
+            · exact Or.inr (Or.inl ⟨hfl, hcan hfl⟩)
+            · exact Or.inr (Or.inr ⟨hfl, hhf hfl⟩)
+          · intro p' h
+            simp only [Except.ok.injEq] at h
+            subst h
+            refine ⟨Or.inr rfl, ?_, ?_⟩
+            · intro _ _ _ hfl; exact hhf hfl
+            · intro s' hs' _ hfl; cases hs'; exact hcan hfl
 
 /-! ### non-vacuity -/
 namespace AaveRisk
